@@ -101,6 +101,8 @@ func run(c *hlib.Ctx) {
 	runScaledResiduals(c, n)
 	runRotations(c, n)
 	runEig2(c, n)
+	runVecs(c, n)
+	runPolysF(c, n)
 }
 
 func emit(c *hlib.Ctx, m mode, kind string, args string, impl func() string) {
